@@ -207,6 +207,8 @@ def line (toks : List String) : String :=
       let res : Option (R × Src × Ufw.Model.Endpoints.Snk × Aux) :=
         match fn with
         | "cbc" => let (r, a, b) := sts_cbc src snk; some (r, a, b, aux)
+        -- without the buffer extension (no endpoint of the library has it) `sts_atmost` / `sts_some` move one octet
+        | "atmost" | "some" => let (r, a, b) := sts_cbc src snk; some (r, a, b, aux)
         | "n_cbc" => let (r, a, b) := sts_n_cbc fuel n src snk n; some (r, a, b, aux)
         | "drain_cbc" => let (r, a, b) := sts_drain_cbc fuel src snk; some (r, a, b, aux)
         | "n" => let (r, a, b) := sts_n fuel src snk n n; some (r, a, b, aux)
